@@ -38,6 +38,13 @@ CONFIGS = {
     "m20-r85": (200, 850, 2, 16000, 10, 0),      # 160-sample frames, window 20: open > 17, close < 3
     "m7-r70": (210, 700, 3, 16000, 30, 0),       # window 7: open > 4, close < 2
     "m16-r50": (480, 500, 0, 16000, 30, 0),      # window 16: open > 8, close < 8
+    # windows that are NOT a whole number of frames (the initialiser rounds the window to frames first and derives
+    # the thresholds from the rounded length): 2.5 -> 3, 3.5 -> 4, 4.5 -> 5, 11.67 -> 12 frames
+    "m3-f75": (75, 700, 0, 16000, 30, 0),        # window 3: open > 2, close < 1   (from 2.5 frames: > 1)
+    "m4-f105": (105, 750, 1, 16000, 30, 0),      # window 4: open > 3, close < 1   (from 3.5: > 2)
+    "m5-f135": (135, 600, 0, 16000, 30, 0),      # window 5: open > 3, close < 2   (from 4.5: > 2)
+    "m12-f350": (350, 500, 2, 16000, 30, 0),     # window 12: open > 6, close < 6  (from 11.67: > 5)
+    "m4-f130": (130, 700, 0, 16000, 30, 0),      # window 4 (from 4.33): open > 2  (from 4.33: > 3)
 }
 
 
@@ -549,7 +556,7 @@ def run(ctx):
 
     # 2d. seeded run-structured sequences on larger windows
     n_rand = 40 if quick else 400
-    big = ["default", "m6-44k", "m14-11k", "m20-r85", "m7-r70", "m16-r50", "m5-48k30", "m4-r50"]
+    big = ["default", "m6-44k", "m14-11k", "m20-r85", "m7-r70", "m16-r50", "m5-48k30", "m4-r50", "m12-f350", "m4-f130"]
     for i in range(n_rand):
         cfg = big[i % len(big)]
         m = thresholds_exact(CONFIGS[cfg][0], CONFIGS[cfg][1], fsize_of(cfg), CONFIGS[cfg][3])[0]
@@ -579,9 +586,9 @@ def run(ctx):
 
     # 2b. all decision sequences up to a length on small windows
     lens = {"m3-r70": 10, "m3-r50": 10, "m3-r60": 9, "m4-r75": 10, "m4-r50": 10, "m4-8k10": 9, "m5-32k20": 10,
-            "m5-48k30": 9} if quick else \
+            "m5-48k30": 9, "m3-f75": 9, "m4-f105": 9, "m5-f135": 8, "m4-f130": 8} if quick else \
            {"m3-r70": 13, "m3-r50": 13, "m3-r60": 12, "m4-r75": 13, "m4-r50": 13, "m4-8k10": 12, "m5-32k20": 13,
-            "m5-48k30": 12}
+            "m5-48k30": 12, "m3-f75": 12, "m4-f105": 12, "m5-f135": 11, "m4-f130": 11}
     if quick:
         units.append(("exh", None, lens))
     else:
